@@ -13,6 +13,10 @@ pub enum Exp {
     Any,
     Set(Vec<Exp>),
     Exact(i64, i64),
+    /// s * sqrt(prod n_i/d_i)
+    SqProd(i64, Vec<(i64, i64)>),
+    /// b_n/b_d + prod n_i/d_i
+    Aff((i64, i64), Vec<(i64, i64)>),
 }
 
 impl Exp {
@@ -27,6 +31,8 @@ impl Exp {
             4 => Exp::Any,
             5 => Exp::Set(a[1..].iter().map(Exp::parse).collect()),
             6 => Exp::Exact(int(1), int(2)),
+            7 => Exp::SqProd(int(1), (2..a.len()).step_by(2).map(|i| (int(i), int(i + 1))).collect()),
+            8 => Exp::Aff((int(1), int(2)), (3..a.len()).step_by(2).map(|i| (int(i), int(i + 1))).collect()),
             k => tool_error(&format!("unknown expectation kind {k}")),
         }
     }
@@ -50,6 +56,8 @@ impl Exp {
             Exp::Q(n, d) | Exp::Exact(n, d) => Some(*n as f64 / *d as f64),
             Exp::Sq(s, n, d) => Some(*s as f64 * (*n as f64 / *d as f64).sqrt()),
             Exp::Int(v) => Some(*v as f64),
+            Exp::SqProd(s, fs) => Some(*s as f64 * fs.iter().map(|(n, d)| *n as f64 / *d as f64).product::<f64>().sqrt()),
+            Exp::Aff(b, fs) => Some(b.0 as f64 / b.1 as f64 + fs.iter().map(|(n, d)| *n as f64 / *d as f64).product::<f64>()),
             _ => None,
         }
     }
@@ -207,7 +215,7 @@ pub fn satisfies(exp: &Exp, obs: Obs, tol: f64, null_as_zero: bool) -> Result<f6
             Obs::F(g) if g == *v as f64 => Ok(0.0),
             _ => fail(),
         },
-        Exp::Exact(..) | Exp::Q(..) | Exp::Sq(..) => {
+        Exp::Exact(..) | Exp::Q(..) | Exp::Sq(..) | Exp::SqProd(..) | Exp::Aff(..) => {
             let want = exp.value().unwrap();
             let t = if matches!(exp, Exp::Exact(..)) { exact_tol } else { tol };
             match obs {
@@ -282,4 +290,80 @@ pub fn enc_vec<T: InElem>(xs: &[i64]) -> Vec<T> {
 }
 pub fn has_null(xs: &[i64]) -> bool {
     xs.iter().any(|&v| v == NULL)
+}
+
+/// Projection impl -> spec: the reduced fraction p/q (q <= qmax) that the float equals within
+/// `tol` relative, by continued fractions; None if there is none (the value is then logged as
+/// inexact and the trace specification rejects it).
+pub fn project(o: f64, tol: f64, qmax: i64) -> Option<(i64, i64)> {
+    if !o.is_finite() {
+        return None;
+    }
+    let (mut p0, mut q0, mut p1, mut q1) = (0i64, 1i64, 1i64, 0i64);
+    let mut x = o;
+    for _ in 0..64 {
+        let a = x.floor();
+        if a.abs() > 1e15 {
+            return None;
+        }
+        let a_i = a as i64;
+        let p2 = a_i.checked_mul(p1)?.checked_add(p0)?;
+        let q2 = a_i.checked_mul(q1)?.checked_add(q0)?;
+        if q2 > qmax || q2 <= 0 {
+            return None;
+        }
+        if (o - p2 as f64 / q2 as f64).abs() <= tol * o.abs().max(1.0) {
+            if p2.abs() >= (1 << 30) {
+                return None;
+            }
+            return Some((p2, q2));
+        }
+        let frac = x - a;
+        if frac.abs() < 1e-300 {
+            return None;
+        }
+        x = 1.0 / frac;
+        (p0, q0, p1, q1) = (p1, q1, p2, q2);
+    }
+    None
+}
+
+/// how a kernel's output is projected for trace validation
+#[derive(Clone, Copy, PartialEq)]
+pub enum ProjKind {
+    /// exact integer (min, max, arg-extrema)
+    Int,
+    /// exact small rational (ranks)
+    Exact,
+    /// rational
+    Q,
+    /// signed square root of a rational
+    Sq,
+}
+
+pub fn project_obs(o: Obs, kind: ProjKind) -> serde_json::Value {
+    use serde_json::json;
+    const TOL: f64 = 1e-12;
+    const QMAX: i64 = 1_000_000;
+    match o {
+        Obs::Null => json!([0]),
+        Obs::I(v) => json!([3, v]),
+        Obs::F(f) => match kind {
+            ProjKind::Int => {
+                if f == f.round() && f.abs() < 1e9 { json!([3, f as i64]) } else { json!([9]) }
+            },
+            ProjKind::Exact => match project(f, TOL, QMAX) {
+                Some((p, q)) => json!([6, p, q]),
+                None => json!([9]),
+            },
+            ProjKind::Q => match project(f, TOL, QMAX) {
+                Some((p, q)) => json!([1, p, q]),
+                None => json!([9]),
+            },
+            ProjKind::Sq => match project(f * f, TOL, QMAX) {
+                Some((p, q)) => json!([2, if f > 0.0 { 1 } else if f < 0.0 { -1 } else { 0 }, p, q]),
+                None => json!([9]),
+            },
+        },
+    }
 }
